@@ -24,3 +24,20 @@ func VerifC23Reward(balances cstate.StateContextI, ptype spenum.Provider, id str
 	}
 	return sp.Save(ptype, id, balances)
 }
+
+// VerifC23SetSavedData sets SavedData of a registered blobber (what commit_connection does when the blobber accepts a
+// write marker; running that path needs a whole signed storage-protocol exchange) and saves the blobber record.
+func VerifC23SetSavedData(balances cstate.StateContextI, id string, savedData int64) error {
+	b, err := getBlobber(id, balances)
+	if err != nil {
+		return err
+	}
+	if err := b.mustUpdateBase(func(nb *storageNodeBase) error {
+		nb.SavedData = savedData
+		return nil
+	}); err != nil {
+		return err
+	}
+	_, err = balances.InsertTrieNode(b.GetKey(), b)
+	return err
+}
